@@ -140,7 +140,7 @@ func Eval(c Case) evid.Verdict {
 			return evid.Pass()
 		}
 		// accepted: the identity must be the sealed one
-		if strings.Join(credsCName, "/") != m.CName {
+		if fmt.Sprintf("%q", credsCName) != fmt.Sprintf("%q", mint.Name(m.CName)) {
 			return evid.Fail("identity:cname", "reported client name %q, sealed in ticket %q; %s", strings.Join(credsCName, "/"), m.CName, ctx)
 		}
 		if credsDomain != m.CRealm || credsRealm != m.CRealm {
